@@ -39,13 +39,13 @@ def run(tier, seed, res):
                        "sum of uses == sum of announced limits at the end of every case",
                        "sequential consistency at atomic-operation granularity under dsched (stress part: real parallelism on x86)"]
     n = 16
-    nmax, pb = (2, 2) if quick else (2, 3)
-    jobs = [dict(cmd=[b, "exh", str(nmax), str(pb), str(i), str(n)], tag="exh") for i in range(n)]
+    nmax, pb, crossmax = (2, 2, 1) if quick else (2, 3, 2)
+    jobs = [dict(cmd=[b, "exh", str(nmax), str(pb), str(i), str(n), str(crossmax)], tag="exh") for i in range(n)]
     wr = core.run_workers(PROP, jobs)
     res.absorb(wr, "exhaustive")
     res.coverage["exhaustive"] = not (wr.failures or wr.crashes)
-    res.coverage["exhaustive_subspace"] = ("2 creators of one key on 2 threads, n_A,n_B in 0..%d, ADDTO at every position among the thread's uses, uses of the own or "
-                                           "of the other creator, trailing lookup when n_A == n_B; every schedule with <= %d preemptions" % (nmax, pb))
+    res.coverage["exhaustive_subspace"] = ("2 creators of one key on 2 threads, n_A,n_B in 0..%d, ADDTO at every position among the thread's uses, uses of the own "
+                                           "creator or (n_A,n_B <= %d) of the other creator, trailing lookup when n_A == n_B; every schedule with <= %d preemptions" % (nmax, crossmax, pb))
     collect(res, wr)
     per = 1200 if quick else 190000
     jobs = [dict(cmd=[b, "rc"], env={"RC_PARAMS": "seed=%d max_success=%d max_size=100" % (seed * 131 + i, per)}, tag="rc") for i in range(n)]
